@@ -237,7 +237,8 @@ def cmd_run(pid, tier):
         json.dump(evd, f, indent=1)
     # compact per-tier summary (kept for both tiers; RESULTS.md is generated from these)
     os.makedirs(os.path.join(V, "results"), exist_ok=True)
-    with open(os.path.join(V, "results", f"{pid}_{tier}.json"), "w") as f:
+    # (runs against a seeded change - tools/seedtest.sh, seedmatrix.sh - do not record results)
+    with open(os.devnull if os.environ.get("VERIF_SEEDED") else os.path.join(V, "results", f"{pid}_{tier}.json"), "w") as f:
         json.dump(dict(property_id=pid, tier=tier, repo=subprocess.run(f"git -C {REPO} rev-parse --short HEAD", shell=True,
                        capture_output=True, text=True).stdout.strip(),
                        executions=R["executions"], choice_nodes=R["choice_nodes"], sched_steps=R["sched_steps"],
